@@ -166,7 +166,7 @@ func genGraph(r *vlib.Rand, family string, maxN int) [][]int {
 	return deps
 }
 
-func delay(r *vlib.Rand, profile string, failing bool) int {
+func delay(r *vlib.Rand, profile, phase string, failing bool) int {
 	switch profile {
 	case "instant":
 		return 0
@@ -177,6 +177,11 @@ func delay(r *vlib.Rand, profile string, failing bool) int {
 			return r.Range(0, 300)
 		}
 		return r.Range(8000, 30000)
+	case "slow-stop": // modules are stopped right after they started; stop routines take a while
+		if phase == "stop" {
+			return r.Range(2000, 12000)
+		}
+		return r.Range(0, 200)
 	default: // mixed
 		switch r.Intn(4) {
 		case 0:
@@ -209,7 +214,7 @@ func genScenario(seed uint64, tier string, id int) Scenario {
 	}
 	deps := genGraph(r, sc.Family, maxN)
 	n := len(deps)
-	sc.Delays = vlib.Pick(r, "instant", "small", "mixed", "mixed", "slow-sibling", "slow-sibling")
+	sc.Delays = vlib.Pick(r, "instant", "small", "mixed", "mixed", "slow-sibling", "slow-sibling", "slow-stop", "slow-stop")
 	if sc.FailPhase == "none" && sc.Delays == "slow-sibling" {
 		sc.Delays = "mixed"
 	}
@@ -248,7 +253,7 @@ func genScenario(seed uint64, tier string, id int) Scenario {
 	mkBehav := func(m int, ph string) Behav {
 		b := Behav{}
 		f := isFail(m, ph)
-		b.DelayUs = delay(r, sc.Delays, f)
+		b.DelayUs = delay(r, sc.Delays, ph, f)
 		if f {
 			b.Fail = vlib.Pick(r, "err", "err", "panic", "panic-err")
 			b.FailFirst = vlib.Pick(r, -1, -1, 1)
